@@ -151,6 +151,19 @@ func (env *Env) sortOfSpecType(te *STypeE, t types.Type) string {
 	return env.te().SortOf(t)
 }
 
+// ghostType resolves the declared type of a ghost variable in the package that declares it.
+func (env *Env) ghostType(gv *GhostVar) (types.Type, string, error) {
+	sub := *env
+	if p := env.fr.vc.sess.typesPkg(gv.Pkg); p != nil {
+		sub.pkg = p
+	}
+	t, err := sub.resolveType(gv.Type)
+	if err != nil {
+		return nil, "", err
+	}
+	return t, sub.sortOfSpecType(gv.Type, t), nil
+}
+
 func isSpecMap(te *STypeE) bool { return te != nil && te.Kind == "map" }
 
 func (env *Env) eval(e SExpr) (Val, error) {
@@ -274,11 +287,10 @@ func (env *Env) evalIdent(name string) (Val, error) {
 	}
 	// ghost variable
 	if gv, ok := sess.specs.Ghosts[name]; ok {
-		gt, err := env.resolveType(gv.Type)
+		gt, srt, err := env.ghostType(gv)
 		if err != nil {
 			return Val{}, err
 		}
-		srt := env.sortOfSpecType(gv.Type, gt)
 		t := env.st.Get("ghost_"+name, srt)
 		if isSpecMap(gv.Type) {
 			return Val{T: t, Typ: nil}, nil
@@ -906,6 +918,13 @@ func (env *Env) evalCall(e *SCall) (Val, error) {
 				return Val{}, err
 			}
 			return Val{T: fr.strOfBytes(env.st, x.T), Typ: types.Typ[types.String]}, nil
+		case "uint32", "uint64", "int64", "int32", "uint16", "uint8", "byte", "uint":
+			v, err := env.eval(e.Args[0])
+			if err != nil {
+				return Val{}, err
+			}
+			t := types.Universe.Lookup(id.Name).Type()
+			return Val{T: wrap(t, v.T), Typ: t}, nil
 		case "int":
 			v, err := env.eval(e.Args[0])
 			if err != nil {
@@ -1208,11 +1227,11 @@ func (env *Env) evalModTargets(e SExpr) ([]modTarget, error) {
 	}
 	if id, ok := e.(*SIdent); ok {
 		if gv, ok := fr.vc.sess.specs.Ghosts[id.Name]; ok {
-			gt, err := env.resolveType(gv.Type)
+			_, gs, err := env.ghostType(gv)
 			if err != nil {
 				return nil, err
 			}
-			return []modTarget{{heap: "ghost_" + id.Name, sort: env.sortOfSpecType(gv.Type, gt), all: true}}, nil
+			return []modTarget{{heap: "ghost_" + id.Name, sort: gs, all: true}}, nil
 		}
 	}
 	v, err := env.eval(e)
